@@ -98,7 +98,7 @@ pub fn worker(tier: &str, k: usize, n: usize, ctx: &mut Ctx) {
   let mut cnt = 0u64;
   props::for_each_wild_combined(&mut st, &mut |t| {
     cnt += 1;
-    if tier != "thorough" && cnt % 8 != 0 {
+    if tier != "thorough" && cnt % 7 != 0 {
       return;
     }
     crate::set_current_case(t);
